@@ -24,7 +24,7 @@ KEYWORDS = ["BEGIN", "END", "MATRIX", "TREE", ";", "TAXA", "TREES", "CHARACTERS"
             "TAXLABELS", "TRANSLATE", "TITLE", "LINK", "NTAX", "NCHAR", "=", "SETS", "CHARSET", "INTERLEAVE"]
 ALPHABET = {
     "newick": list("(),:;[]'\" \n_&") + ["a", "B", "1", "0.5", "e-3", "[&R]", "[&U]", "''"],
-    "nexus": list("(),:;[]'\"= \n{}-?_&#*") + ["a", "B", "1", "0.5", "A", "C", "G", "T"] + KEYWORDS,
+    "nexus": list("(),:;[]'\"= \n{}-?_&#*\\/.") + ["a", "B", "1", "0", "0.5", "A", "C", "G", "T"] + KEYWORDS,
     "phylip": list(" \n\t-?") + ["A", "C", "G", "T", "1", "0", "2", "10", "t1", "x"],
     "fasta": list(">\n -?;") + ["A", "C", "G", "T", "t1", "x"],
 }
@@ -37,7 +37,7 @@ NEXUS_STATEMENTS = [
     "MATRIX a ACGT b ACGT c ACGT;", "MATRIX a AC b AC c AC;", "MATRIX a 0101 b 1{01}0(01) c ....;", "MATRIX\na AC\nb AC\n\na GT\nb GT\n;",
     "MATRIX a 0.5 1.5 b 2 3;", "MATRIX", "MATRIX;", "BEGIN TREES;", "TRANSLATE 1 a, 2 b, 3 c;", "TRANSLATE 1 a, 2 b;", "TRANSLATE;",
     "TREE t = (1,2,3);", "TREE t = ((a,b),c);", "TREE * t = [&R] ((a:1,b:2):3,c:4);", "TREE t = (a,b,d);", "TREE = (a,b);", "TREE t (a,b);",
-    "BEGIN SETS;", "CHARSET x = 1-3;", "CHARSET y = 1 2 .;", "CHARSET z = 1-.\\2;", "CHARSET w = all;", "CHARSET v = 9;", "CHARSET;",
+    "BEGIN SETS;", "CHARSET x = 1-3;", "CHARSET y = 1 2 .;", "CHARSET z = 1-.\\2;", "CHARSET s0 = 1-4\\0;", "CHARSET s1 = 2-1;", "CHARSET s2 = 1-3/0;", "CHARSET w = all;", "CHARSET v = 9;", "CHARSET;",
     "LINK TAXA = t;", "LINK CHARACTERS = c;", "LINK FOO = bar;", "TITLE t;", "TITLE c;", "TITLE;", "BEGIN FOO;", "bar baz;", "BEGIN;",
     "[a comment]", "[unterminated comment", "'unterminated quote",
 ]
@@ -271,8 +271,32 @@ class C20(Machine):
                     steps.append({"k": "soup", "text": pre + sep.join(rng.choice(ALPHABET[doc["schema"]]) for _ in range(n))})
                 elif r < 0.97 and doc["schema"] == "nexus":
                     # statement soup: syntactically plausible statements in an arbitrary order
-                    k = rng.randint(3, 14)
-                    steps.append({"k": "soup", "text": "#NEXUS\n" + "\n".join(rng.choice(NEXUS_STATEMENTS) for _ in range(k)) + "\n"})
+                    if rng.random() < 0.4:
+                        k = rng.randint(3, 14)
+                        stm = [rng.choice(NEXUS_STATEMENTS) for _ in range(k)]
+                    else:
+                        # guided: a plausible skeleton (so that later statements find their context), then a few local mutations
+                        stm = ["BEGIN TAXA;", "DIMENSIONS NTAX=3;", "TAXLABELS a b c;", "END;"]
+                        if rng.random() < 0.8:
+                            stm += ["BEGIN CHARACTERS;", "DIMENSIONS NCHAR=4;", rng.choice(["FORMAT DATATYPE=DNA;", "FORMAT DATATYPE=DNA MISSING=? GAP=- INTERLEAVE;",
+                                                                                            "FORMAT DATATYPE=STANDARD SYMBOLS=\"01\";"]),
+                                    rng.choice(["MATRIX a ACGT b ACGT c ACGT;", "MATRIX\na AC\nb AC\nc AC\n\na GT\nb GT\nc GT\n;", "MATRIX a 0101 b 1{01}0(01) c 0000;"]), "END;"]
+                            stm += ["BEGIN SETS;"] + [rng.choice([x for x in NEXUS_STATEMENTS if x.startswith("CHARSET")]) for _ in range(rng.randint(1, 3))] + ["END;"]
+                        stm += ["BEGIN TREES;"] + [rng.choice([x for x in NEXUS_STATEMENTS if x.startswith(("TRANSLATE", "TREE", "LINK", "TITLE"))])
+                                                   for _ in range(rng.randint(1, 4))] + ["END;"]
+                        for _ in range(rng.randint(0, 3)):
+                            j = rng.randrange(len(stm))
+                            m_ = rng.random()
+                            if m_ < 0.3:
+                                del stm[j]
+                            elif m_ < 0.6:
+                                stm.insert(j, rng.choice(NEXUS_STATEMENTS))
+                            elif m_ < 0.8 and len(stm) > 1:
+                                j2 = rng.randrange(len(stm))
+                                stm[j], stm[j2] = stm[j2], stm[j]
+                            else:
+                                stm.insert(j, stm[j])
+                    steps.append({"k": "soup", "text": "#NEXUS\n" + "\n".join(stm) + "\n"})
                 else:
                     # deep nesting: the node parser recurses once per level
                     n = rng.choice([300, 990, 1200, 4000])
@@ -430,7 +454,13 @@ class C20(Machine):
             outcome = "returned"
             for t in trees:
                 try:
-                    rawtree.check_arborescence(t)
+                    nodes_ = rawtree.check_arborescence(t)
+                    seen_ = set()
+                    for nd_ in nodes_:
+                        if nd_.taxon is not None:
+                            if id(nd_.taxon) in seen_:
+                                raise rawtree.Malformed("one taxon on two nodes of a tree (the readers document duplicate taxa as an error)")
+                            seen_.add(id(nd_.taxon))
                 except rawtree.Malformed as m:
                     outcome = "bad_tree"
                     rec.violation("MALFORMED_TREE", dict(base, rule=str(m)), "reader returned a malformed tree: %s; fault=%s" % (m, _short(step)))
